@@ -491,6 +491,8 @@ def canon(root, *, order_dicts=False, with_tags=True):
     keep.append(x)
     if isinstance(x, fdl.Buildable):
       items = list(configured_args(x).items())
+      if order_dicts:
+        items = sorted(items, key=lambda kv: repr(kv[0]))      # **kwargs insertion order is ignored
       out = ['cfg', n, type(x).__name__, callable_name(x.__fn_or_cls__),
              [[k, go(v)] for k, v in items]]
       if with_tags:
